@@ -1,0 +1,35 @@
+//go:build verif
+
+// Contracts for package generic, read by /verif/govc (contract-based deductive verification).
+// This file contains comments only; it adds no code to any build.
+
+package generic
+
+// ---- C18: callback triggers ----------------------------------------------------------------------
+
+//@ func (*Callback).contains [C18]
+//@   let C = c.Insensitive ? lower(c.Contains) : c.Contains
+//@   modifies c.containsBytes
+//@   requires len(c.containsBytes) == 0 || c.containsBytes == C
+//@   ensures #value result == C
+//@   ensures #cache c.containsBytes == C
+
+//@ func (*Callback).notContains [C18]
+//@   let N = c.Insensitive ? lower(c.NotContains) : c.NotContains
+//@   modifies c.notContainsBytes
+//@   requires len(c.notContainsBytes) == 0 || c.notContainsBytes == N
+//@   ensures #value result == N
+//@   ensures #cache c.notContainsBytes == N
+
+// The trigger predicate, written from the property statement: the output contains the callback's
+// text (case-insensitively when Insensitive) or matches its pattern, and does not contain its
+// not-contains text.
+//@ func (*Callback).check [C18]
+//@   let bb = c.Insensitive ? lower(b) : b
+//@   let C = c.Insensitive ? lower(c.Contains) : c.Contains
+//@   let N = c.Insensitive ? lower(c.NotContains) : c.NotContains
+//@   modifies c.containsBytes, c.notContainsBytes
+//@   requires len(c.containsBytes) == 0 || c.containsBytes == C
+//@   requires len(c.notContainsBytes) == 0 || c.notContainsBytes == N
+//@   ensures #trigger result <==> (((c.Contains != "" && contains(bb, C)) || (c.ContainsRe != nil && reMatch(c.ContainsRe, bb))) && !(c.NotContains != "" && contains(bb, N)))
+//@   ensures #cache-kept (len(c.containsBytes) == 0 || c.containsBytes == C) && (len(c.notContainsBytes) == 0 || c.notContainsBytes == N)
